@@ -274,6 +274,19 @@ def internal_cases(rng, k):
 
         yield "flox.aggregations.AlignedArrays.last (chunk_reduce nanlast)", last_case
 
+        def unique_case(vals=vals):
+            from flox.core import _unique
+
+            from ..contracts.findgroups import c_unique
+
+            ex, st = _Ex(), State()
+            out = c_unique(ex, st, [cseq(vals, V.Val, st)], {}, _node())
+            real = _unique(np.array(vals, dtype="float64"))
+            link(out, real, V.Val, st)
+            return decide(ex, st), {"function": "_unique", "array": [repr(v) for v in vals], "got": [repr(x) for x in real.tolist()]}
+
+        yield "flox.core._unique (np.sort(pd.unique(.)))", unique_case
+
         def ffill_case(codes=codes, vals=vals):
             from flox.aggregations import generic_aggregate
 
